@@ -214,10 +214,19 @@ fn get_configuration() -> Configuration {
     let mut path = current_dir.clone();
     path.push(IWE_MARKER);
     path.push(CONFIG_FILE_NAME);
-    std::fs::read_to_string(path)
-        .ok()
-        .and_then(|content| toml::from_str::<Configuration>(&content).ok())
-        .unwrap_or(Configuration::default())
+    // no configuration file: the defaults. A file that is there but cannot be read as a
+    // configuration stops the command: going on with the defaults would take the current
+    // directory for the library and rewrite files the configuration keeps out of it
+    match std::fs::read_to_string(&path) {
+        Err(_) => Configuration::default(),
+        Ok(content) => match toml::from_str::<Configuration>(&content) {
+            Ok(configuration) => configuration,
+            Err(error) => {
+                eprintln!("cannot read {}: {}", path.display(), error);
+                std::process::exit(1);
+            }
+        },
+    }
 }
 
 fn render_block_reference(key: &Key, context: impl GraphContext) -> String {
